@@ -255,6 +255,9 @@ def stage3(u, cs, A, IMPL):
     sb.rewrite_re('R11', r'let (\w+): &AluPrepLaneCols<F> =\s*(\w+)\[(.+?)\]\.borrow\(\);', r'let \1 = borrow_prep(&\2[\3]);', min_count=0, flags_dotall=True)
     sb.rewrite_re('R6', r'op_indices\.is_empty\(\)', 'op_indices.len() == 0', min_count=0)
     unall(sb)
+    from vf.unit import unfirst_last_let_else
+    unfirst_last_let_else(sb)
+    sb.rewrite_re('R11', r'let (\w+): &AluPrepLaneCols<F> = (\w+)\[(.+?)\]\.borrow\(\);', r'let \1 = borrow_prep(&\2[\3]);', min_count=0, flags_dotall=True)
     from vf.unit import unref_patterns_in_arms
     unref_patterns_in_arms(sb)
     sb.rewrite_re('R1', r'let &idx = &op_indices\[(\w+)\];', r'let idx = op_indices[\1];', min_count=0)
